@@ -122,6 +122,19 @@ def r08_2(ctx):
         ctx.check(okx, "_grid_intg_fine state = coefficients * power basis", detail="state evaluation", expected="mtimes(coeff, tpower)", found=ast.unparse(a[1]), fi=f)
         oku = ast.unparse(a[4]) == "stage._method.U[%s]" % kv
         ctx.check(oku, "_grid_intg_fine uses the control of interval k", detail="control of another interval", expected="stage._method.U[k]", found=ast.unparse(a[4]), fi=f)
+    # every call of the expression function passes its arguments in the order of its own signature (t, x, xq, z, u, pv, t0, T)
+    efd = [d for d in sc.defs.get("expr_f", []) if d.kind == "assign"]
+    okf = len(efd) == 1 and isinstance(efd[0].value, ast.Call) and len(efd[0].value.args) >= 3 and isinstance(efd[0].value.args[1], ast.List)
+    if okf:
+        sig = [ast.unparse(e) for e in efd[0].value.args[1].elts]
+        okf = sig == ["stage.t", "stage.x", "stage.xq", "stage.z", "stage.u", "vertcat(stage.p, stage.v)", "stage.t0", "stage.T"]
+        ecalls = [x for x in walk_no_nested(f.node) if isinstance(x, ast.Call) and isinstance(x.func, ast.Name) and x.func.id == "expr_f"]
+        for x in ecalls:
+            tail = [ast.unparse(a) for a in x.args[-2:]]
+            ctx.check(len(x.args) == 8 and tail == ["stage._method.t0", "stage._method.T"], "_grid_intg_fine passes t0 and T in the order of the expression function's signature (line-role %s)" % ("final point" if not sc.enclosing_loops(x) else "steps"),
+                      detail="T and t0 exchanged inside the sampled expression", expected="(..., stage._method.t0, stage._method.T)", found=str(tail), fi=f, node=x)
+            ctx.check(ast.unparse(x.args[4]).startswith("stage._method.U["), "_grid_intg_fine passes the control in the control slot", detail="argument order", expected="5th argument = U[...]", found=ast.unparse(x.args[4]) if len(x.args) > 4 else "", fi=f, node=x)
+    ctx.check(okf, "_grid_intg_fine expression function signature", detail="signature", expected="[t, x, xq, z, u, vertcat(p,v), t0, T]", found=ast.unparse(efd[0].value)[:120] if efd else None, fi=f)
     # running step start: t0 = time[k] at the top of k, advanced by dt once per l
     t0d = [d for d in sc.defs.get("t0", []) if d.kind == "assign" and sc.within(d.stmt, loops[0][2])]
     aug = [d for d in sc.defs.get("t0", []) if d.kind == "aug" and sc.within(d.stmt, loops[1][2])]
@@ -235,3 +248,9 @@ def r08_4(ctx):
     g = P.own_method("OcpSolution", "sampler")
     ok = any(isinstance(c, ast.Call) and ast.unparse(c.func) == "functools.partial" and [ast.unparse(a) for a in c.args] == ["s", "self.gist"] for c in walk_no_nested(g.node))
     ctx.check(ok, "sol.sampler binds the solution's gist", detail="numeric sampler", expected="functools.partial(s, self.gist)", found="", fi=g)
+
+
+@rule("R08.5", min_instances=3, desc="the integrator grid the refined samples and the sampler are anchored on splits each control interval into M equal steps (shared with C06)")
+def r08_5(ctx):
+    from .c06 import r06_2
+    r06_2(ctx)
